@@ -58,6 +58,22 @@ CLAIMS = {
          "Decides structural necessary conditions: a device-derived make length whose range exceeds 16 MiB is bounded by a dominating comparison (on it, on a value computed from it, on its operands, at the store of the field it is loaded from, or by a validator call); every device-derived divisor is proven non-zero; slice-shrinking loop steps are proven positive; FAT cluster-chain walks carry a link-count bound. Nine allocation sites (iso9660 x6, fat32, squashfs, ext4) violate the rule today and are listed as known findings with the corrupted field that triggers each; five defects were repaired. Slice/index panics, decompression bombs and time bounds are not covered.",
          "Whether a bounding constant is small enough is not judged (only that a bound exists); taint is field-based and flow-insensitive across functions.",
          "DESIGN.md §4 C18"),
+ "C02": ("byte-layout extraction (abstract interpretation of encoder/decoder over go/ssa: field x significance x mask per byte) + ordering of CRC computation against stores + width check on geometry conversions",
+         "Decides structural necessary conditions of the GPT/MBR round trip: for the GPT header, GPT entry and MBR entry every byte the parser maps to a field is written by the encoder from the same field with the same significance (and vice versa); the header CRC is computed over [0:92] after every other store into that range and stored at [16:20], the reader verifies the same range, the array CRC is computed from the array encoder's output; narrowing conversions of geometry into on-disk fields are range-tested or saturated (one defect repaired: protective MBR size); the error discipline of Table.Write is shared with C09. Does not decide numeric equality of a written and re-read table, UTF-16 name handling, or CHS values.",
+         "The extractor models constant offsets, binary.*Endian, copy, append, shifts/masks and helper inlining; bytes it cannot resolve are counted as unresolved, and each pair has a floor on agreeing bytes (exit 2 if the extractor stops understanding a pair).",
+         "DESIGN.md §4 C02"),
+ "C06": ("byte-layout extraction for the volume descriptors + provenance of device I/O offsets/receivers (backend.Sub wrapping)",
+         "Decides structural necessary conditions of the ISO9660 round trip: the image is written and read at one translation (every device I/O of package iso9660 goes through the backend.Sub-wrapped backend); primary and supplementary volume descriptor encoders and parsers agree byte by byte on field, significance and both-endian duplication. Directory records, SUSP/Rock Ridge entries, name mangling, sector layout and extent non-overlap are not covered.",
+         "The directory-record pair is not resolved by the extractor (encoder returns record lists) and is not claimed.",
+         "DESIGN.md §4 C06"),
+ "C07": ("byte-layout extraction for 14 squashfs structures + switch exhaustiveness over type constants + provenance of cache results",
+         "Decides structural necessary conditions of the squashfs round trip: superblock, inode header, 11 inode bodies, directory header/entry and fragment entry encoders and parsers agree byte by byte; parseInodeBody has a case for every inodeType constant and newCompressor for every compression constant; lru.get returns only what fetch produced (results cannot depend on cache size). Block/fragment packing, compressor behaviour, directory ordering and Finalize cursor arithmetic are not covered.",
+         "The extended device inode pair is unresolved (floor 0) and contributes nothing.",
+         "DESIGN.md §4 C07"),
+ "C19": ("byte-layout extraction incl. bit masks and split fields + frame conditions (set of stored fields per mutator) + switch exhaustiveness of type tables",
+         "Decides structural necessary conditions of metadata preservation: ext4 inode (split uid/gid/size halves, seconds+extra timestamp pairs), ext4 directory entry, FAT 8.3 record (attribute/case bits with masks, date/time words, split cluster) and squashfs inode header encoders and parsers agree byte by byte; ext4 Chmod/Chown/Chtimes and the FAT attribute setters store only their own fields; the file-type-to-mode tables of ext4 and squashfs are total. Representable ranges, the symlink inline boundary and host metadata collection are not covered.",
+         "Frame conditions are over field stores reached through in-package callees up to depth 4, excluding write-back helpers.",
+         "DESIGN.md §4 C19"),
 }
 
 NOT_APPLICABLE = {
